@@ -2,6 +2,7 @@ package main
 
 import (
 	"fmt"
+	"os"
 	"strings"
 	"time"
 
@@ -93,8 +94,23 @@ func waitStop(w *world) string {
 	if expect {
 		timeout = 6 * time.Second
 	}
+	// TaskQueueSet.Iterate has a yield point keyed with the main queue's name (C03's): a wait that goes through
+	// Iterate must not be parked by this world's subscription (the workers are not stepped any more)
+	if q, ok := w.qs[1]; ok {
+		sched.Unsubscribe(q.name)
+	}
 	t0 := time.Now()
-	w.tqs.WaitStopWithTimeout(timeout)
+	done := make(chan struct{})
+	go func() {
+		w.tqs.WaitStopWithTimeout(timeout)
+		close(done)
+	}()
+	select {
+	case <-done:
+	case <-time.After(timeout + 10*time.Second):
+		hangs.Add(1) // the wait does not even end at its timeout
+		return "false"
+	}
 	if time.Since(t0) < timeout {
 		return "true"
 	}
@@ -351,8 +367,157 @@ func c17Interleave(c *Case, mask uint, stopPos int) {
 	c.Note("kind:interleave")
 }
 
+// c17WaitBusy: the wait of Shutdown() with every queue in turn the unfinished one. nq queues (created in
+// a shuffled order, so that the main queue and the busy queue sit at different places of the set's map),
+// all of them started; queue `busy` is in the middle of a handler (kind 0) or parked somewhere in its
+// loop (kind 1) when Stop() is requested, every other worker runs to its exit. WaitStopWithTimeout is
+// called while that one worker is still alive and is given `rounds` of its 100 ms check — each check
+// visits the queues in a fresh map order — before the handler returns: it must not be back. Then the
+// worker finishes and the wait must end ahead of its timeout. Only lower bounds on durations are asserted
+// for the first half (load makes the checks rarer, never more frequent).
+func c17WaitBusy(c *Case, rng *Rng, nq, busy, kind, rounds int) {
+	if tooManyHangs(c) {
+		return
+	}
+	w := newWorld(c, fmt.Sprintf("c17w-%d", c.Idx))
+	defer w.close()
+	order := make([]int, nq)
+	for i := range order {
+		order[i] = i + 1
+	}
+	rng.Shuffle(nq, func(i, j int) { order[i], order[j] = order[j], order[i] })
+	for _, n := range order {
+		w.opNew(n, true)
+	}
+	for _, n := range order {
+		w.opStart(n)
+	}
+	next := 10
+	var ts []delivery
+	for n := 1; n <= nq; n++ {
+		if n == busy || rng.Chance(50) {
+			for j := rng.Range(1, 2); j > 0; j-- {
+				next++
+				ts = append(ts, delivery{n, next})
+			}
+		}
+	}
+	w.opDeliver(ts, rng.Bool(), "deliver")
+	// the busy worker goes into its handler (kind 0) or a few steps into its loop (kind 1)
+	if kind == 0 {
+		for i := 0; i < 8 && !strings.HasPrefix(w.qs[busy].at, "run:") && w.bad == ""; i++ {
+			detStep(w, busy)
+		}
+		if !strings.HasPrefix(w.qs[busy].at, "run:") && w.bad == "" {
+			c.Inconcl = "the busy worker did not reach its handler in 8 steps"
+			return
+		}
+	} else {
+		for i := rng.Intn(3); i > 0 && w.bad == ""; i-- {
+			if strings.HasPrefix(w.qs[busy].at, "run:") {
+				break
+			}
+			detStep(w, busy)
+		}
+	}
+	// the others do some of their work
+	for i := rng.Intn(6); i > 0 && w.bad == ""; i-- {
+		n := order[rng.Intn(nq)]
+		if n != busy {
+			detStep(w, n)
+		}
+	}
+	w.opStop()
+	for i := 0; i < 14 && w.bad == ""; i++ {
+		progressed := false
+		for _, n := range order {
+			if n != busy && detStep(w, n) {
+				progressed = true
+			}
+		}
+		if !progressed {
+			break
+		}
+	}
+	if w.bad != "" {
+		c.Op("harness-timeout", "hang")
+		return
+	}
+	c.Note(fmt.Sprintf("waitbusy:queues=%d", nq))
+	c.Note("waitbusy:busy-at=" + strings.SplitN(w.qs[busy].at, ":", 2)[0])
+	if busy == 1 {
+		c.Note("waitbusy:busy-is-main")
+	}
+	// TaskQueueSet.Iterate has a yield point keyed with the main queue's name (C03's): a wait that goes through
+	// Iterate must not be parked by this world's subscription. Queue 1 needs none for the moment: its worker
+	// has exited, sits in its handler, or is parked already (a parked goroutine stays parked).
+	sched.Unsubscribe(w.qs[1].name)
+	const timeout = 10 * time.Second
+	done := make(chan struct{})
+	t0 := time.Now()
+	go func() {
+		w.tqs.WaitStopWithTimeout(timeout)
+		close(done)
+	}()
+	early := "false"
+	select {
+	case <-done:
+		if time.Since(t0) < timeout {
+			early = "true" // back although queue `busy` has a live worker
+		}
+	case <-time.After(time.Duration(rounds)*100*time.Millisecond + 60*time.Millisecond):
+	}
+	c.Op("allStopped", early)
+	if early == "true" {
+		c.Oracle(fmt.Sprintf("stopped q=%s ev=%s", w.names(), w.traceStr()))
+	}
+	c.Oracle(fmt.Sprintf("waitreturns exited=false early=%s", early))
+	if busy == 1 {
+		w.qs[1].arrive = sched.Subscribe(w.qs[1].name) // its worker is stepped again
+	}
+	// the current handler returns, the worker runs to its exit
+	for i := 0; i < 10 && w.qs[busy].at != "exit" && w.bad == ""; i++ {
+		if !detStep(w, busy) {
+			break
+		}
+	}
+	if w.bad != "" {
+		c.Op("harness-timeout", "hang")
+		return
+	}
+	if early == "true" {
+		// the wait came back with a live worker: that is the finding; the second half needs a wait that is still going on
+		w.oracleLog()
+		c.Nontrivial = true
+		c.Note("kind:wait-with-one-busy-queue")
+		return
+	}
+	ans := "false"
+	select {
+	case <-done:
+		if time.Since(t0) < timeout {
+			ans = "true"
+		}
+	case <-time.After(timeout + 5*time.Second):
+	}
+	c.Op("allStopped", ans)
+	if ans == "true" {
+		c.Oracle(fmt.Sprintf("stopped q=%s ev=%s", w.names(), w.traceStr()))
+	}
+	c.Oracle(fmt.Sprintf("waitreturns exited=true early=%s", ans))
+	c.Oracle(fmt.Sprintf("terminated q=%s ev=%s", w.names(), w.traceStr()))
+	w.oracleLog()
+	c.Nontrivial = true
+	c.Note("kind:wait-with-one-busy-queue")
+}
+
 func runC17(r *Run) {
-	r.Rule = "real TaskQueueSet + started TaskQueue workers + the real ManagerEventsHandler; every worker is stepped from one yield point to the next (loop, afterCtxCheck, beforeSelect, tick, handler entry, afterHandler, exit); a case is a random schedule over 1-4 queues (deliveries through the consumer incl. absent queues, handler results Success/Fail/Repeat/Keep with head/after/tail tasks and delays, Filter from inside the handler, repeated Start, queues created/started late) with TaskQueueSet.Stop() injected at position k (quick: k random in 0..30; thorough: every k in 0..40 for 150 schedule seeds, and exhaustively all 3432 interleavings of two workers (7 steps each) x 15 stop positions), then all workers run to exit, late deliveries and late starts follow; free-running cases (real goroutines, Stop() at a random moment while events keep arriving) check the weak form (at most one more start per queue, every worker exits, nothing after exit); whole-operator cases call the real ShellOperator.Shutdown() on an operator with bash hooks in several queues, one hook in the middle of its run and ticks still arriving, and check from the hook processes' markers and the queue statuses that after Shutdown() returned a queue starts at most the one task it had picked and nothing once it showed Status stop, and that every queue shows Status stop once the running hook returns; whole-operator cases with cluster events do the same on hooks with 1-3 schedule and kubernetes bindings each (every binding with no queue, `main`, or one of 1-4 names: queues named only by kubernetes bindings, only by schedule bindings, by both), the kubernetes bindings watching ConfigMaps of a fake cluster through the real informers and the real events consumer: a cluster change reaches every kubernetes binding before the shutdown, hook h1 hangs mid-run (2 of 3) with work queued behind it, changes in flight, Shutdown(), then more cluster changes (new objects, modifications, deletions) and ticks; checked: the stop request reached the context of every queue the configurations name, after Shutdown() returned a queue starts at most the one task it had picked and nothing once it showed stop (no bound on how late a hook process writes its marker), every queue shows stop, no object created after the shutdown appears in an execution; one case runs the real ScheduleManager with an every-second crontab and checks that no tick arrives once Stop() has taken effect; when the stop finds a worker before the select the ticker is given time to fire so that both select cases are ready. Non-trivial = the observed event trace has >= 6 events; distinct = distinct op-line sequences."
+	r.Rule = "real TaskQueueSet + started TaskQueue workers + the real ManagerEventsHandler; every worker is stepped from one yield point to the next (loop, afterCtxCheck, beforeSelect, tick, handler entry, afterHandler, exit); a case is a random schedule over 1-4 queues (deliveries through the consumer incl. absent queues, handler results Success/Fail/Repeat/Keep with head/after/tail tasks and delays, Filter from inside the handler, repeated Start, queues created/started late) with TaskQueueSet.Stop() injected at position k (quick: k random in 0..30; thorough: every k in 0..40 for 150 schedule seeds, and exhaustively all 3432 interleavings of two workers (7 steps each) x 15 stop positions), then all workers run to exit, late deliveries and late starts follow; free-running cases (real goroutines, Stop() at a random moment while events keep arriving) check the weak form (at most one more start per queue, every worker exits, nothing after exit); whole-operator cases call the real ShellOperator.Shutdown() on an operator with bash hooks in several queues, one hook in the middle of its run and ticks still arriving, and check from the hook processes' markers and the queue statuses that after Shutdown() returned a queue starts at most the one task it had picked and nothing once it showed Status stop, and that every queue shows Status stop once the running hook returns; whole-operator cases with cluster events do the same on hooks with 1-3 schedule and kubernetes bindings each (every binding with no queue, `main`, or one of 1-4 names: queues named only by kubernetes bindings, only by schedule bindings, by both), the kubernetes bindings watching ConfigMaps of a fake cluster through the real informers and the real events consumer: a cluster change reaches every kubernetes binding before the shutdown, hook h1 hangs mid-run (2 of 3) with work queued behind it, changes in flight, Shutdown(), then more cluster changes (new objects, modifications, deletions) and ticks; checked: the stop request reached the context of every queue the configurations name, after Shutdown() returned a queue starts at most the one task it had picked and nothing once it showed stop (no bound on how late a hook process writes its marker), every queue shows stop, no object created after the shutdown appears in an execution; the real WaitStopWithTimeout is run with 2-4 (thorough 2-6) queues created in a shuffled order, each queue in turn the unfinished one (in the middle of a handler / parked in its loop) while the others have exited, over several rounds of its 100 ms check (a fresh map order each): it must not be back before that worker has exited and must end ahead of its timeout afterwards; whole-operator cases with a silent API server (one at a time) request the real Shutdown() while the main queue's handler is inside AddMonitor / StartMonitor of a later hook (a reactor on the fake dynamic client holds that LIST request), hook h1 hanging mid-run with runs of other hooks queued behind it and every other queue run dry: Shutdown() must come back, the stop request must have reached every queue, a queue starts at most the one task it had picked, every named queue shows stop once h1 returns (the API server still silent) and main once the API server answers; whenever a worker was inside its handler for a whole Shutdown() call, the call must not have returned ahead of WaitQueuesTimeout; one case runs the real ScheduleManager with an every-second crontab and checks that no tick arrives once Stop() has taken effect; when the stop finds a worker before the select the ticker is given time to fire so that both select cases are ready. Non-trivial = the observed event trace has >= 6 events; distinct = distinct op-line sequences."
+	if os.Getenv("VERIF_C17_ONLY") == "slowapi" { // debugging aid: this one family alone, as parallel as in a full run
+		shell_operator.WaitQueuesTimeout = time.Second
+		r.Cases(80000, r.N(12, 60), 1, func(c *Case, rng *Rng) { c17OperatorSlowAPI(r, c, rng) })
+		return
+	}
 	r.One(0, func(c *Case, _ *Rng) {
 		c.Desc = "corpus: stop while the worker sleeps in a back-off, ticker and Done both ready at the select"
 		c17SelectRace(c, true, 40)
@@ -374,11 +539,37 @@ func runC17(r *Run) {
 		c17Random(c, rng, rng.Range(0, 30))
 	})
 	r.Cases(50000, r.N(300, 3000), 0, func(c *Case, rng *Rng) { c17Free(c, rng) })
+	// the wait of Shutdown(): 2..maxq queues, each of them in turn the one that is not finished, in the middle
+	// of a handler / parked in its loop; several rounds of the 100 ms check (fresh map order each)
+	{
+		type wb struct{ nq, busy, kind int }
+		var combos []wb
+		maxq, reps, rounds := 4, 1, 4
+		if r.Thorough() {
+			maxq, reps, rounds = 6, 3, 7
+		}
+		for rep := 0; rep < reps; rep++ {
+			for nq := 2; nq <= maxq; nq++ {
+				for b := 1; b <= nq; b++ {
+					combos = append(combos, wb{nq, b, 0}, wb{nq, b, 1})
+				}
+			}
+		}
+		r.Cases(55000, len(combos), 0, func(c *Case, rng *Rng) {
+			k := combos[c.Idx-55000]
+			c.Desc = fmt.Sprintf("WaitStopWithTimeout with %d queues, queue %d unfinished (kind %d)", k.nq, k.busy, k.kind)
+			c17WaitBusy(c, rng, k.nq, k.busy, k.kind, rounds)
+		})
+		r.Extra["wait_scope"] = fmt.Sprintf("WaitStopWithTimeout: 2..%d queues, each queue in turn the unfinished one (in its handler / parked in its loop), %d rounds of the check", maxq, rounds)
+	}
 	// the real ShellOperator.Shutdown(); its wait for the queues is shortened from 10 s to 1 s
 	shell_operator.WaitQueuesTimeout = time.Second
 	r.Cases(60000, r.N(24, 160), 8, func(c *Case, rng *Rng) { c17Operator(r, c, rng) })
 	// the same with cluster events: hooks with kubernetes bindings (queues of their own) on a fake cluster, real informers
 	r.Cases(70000, r.N(32, 200), 8, func(c *Case, rng *Rng) { c17OperatorKube(r, c, rng) })
+	// shutdown requested while the main queue's handler waits for a silent API server (AddMonitor / StartMonitor)
+	// (one at a time: a cache sync in progress holds the process-wide DefaultFactoryStore lock)
+	r.Cases(80000, r.N(12, 60), 1, func(c *Case, rng *Rng) { c17OperatorSlowAPI(r, c, rng) })
 	<-cronDone
 	if r.Thorough() {
 		// every stop position for a set of schedule seeds
